@@ -19,6 +19,7 @@ from fractions import Fraction
 import torch
 import z3
 
+INT_AS_REAL = True
 RNE = z3.RNE()
 F32 = z3.Float32()
 F64 = z3.Float64()
@@ -48,7 +49,11 @@ class Context:
         self.taken = []  # decisions taken on this run
         self.axioms = []  # ground axioms of abstracted functions
         self.apps = {}  # fname -> list[(args tuple, const)]
-        self.app_index = {}  # (fname, arg ids) -> const
+        self.app_index = {}  # app term id -> (fname, args)
+        self.app_order = []
+        self.ack_memo = {}
+        self.ack_consts = {}
+        self.ack_apps = {}
         self.inputs = {}  # name -> (SymTensor) registered symbolic inputs (for models / replay)
         self.fresh = itertools.count()
         self.opaque_ops = set()
@@ -88,7 +93,8 @@ def sort_of_dtype(dtype: torch.dtype):
     if dtype == torch.bool:
         return z3.BoolSort()
     if dtype in (torch.int64, torch.int32, torch.int16, torch.int8, torch.uint8):
-        return z3.IntSort()
+        # in real mode integer tensors (counts, sums of masks) are embedded in the reals: keeps goals inside QF_NRA
+        return z3.RealSort() if CTX.mode == "R" and INT_AS_REAL else z3.IntSort()
     if dtype.is_floating_point:
         if CTX.mode == "R":
             return z3.RealSort()
@@ -163,10 +169,16 @@ def is_num(t):
 # ------------------------------------------------------------------------------------------------
 # casts
 # ------------------------------------------------------------------------------------------------
-def cast(t, to_dtype: torch.dtype):
+def cast(t, to_dtype: torch.dtype, from_dtype=None):
     """Convert a term (of any of our sorts) to the sort of `to_dtype` with torch's semantics."""
     target = sort_of_dtype(to_dtype)
     s = t.sort()
+    if from_dtype is not None and from_dtype.is_floating_point and not to_dtype.is_floating_point and to_dtype != torch.bool and s == target:
+        # float -> integer dtype while integers are embedded in the reals: truncation toward zero
+        v = num_value(t)
+        if v is not None:
+            return real_val(int(v))
+        raise Unsupported("float -> int conversion of a symbolic value in real mode")
     if s == target:
         return t
     if to_dtype == torch.bool:
@@ -273,6 +285,15 @@ def mk_mul(a, b):
     if z3.is_fp(a):
         if is_num(a) and is_num(b):
             return _fp_const_fold(lambda x, y: x * y, a, b)
+        # If(c, 1, 0) * x  ->  If(c, x, 0 * x)   (1 * x is exact in IEEE; the 0 * x branch is kept as a product)
+        for p, q in ((a, b), (b, a)):
+            if z3.is_app_of(p, z3.Z3_OP_ITE) and is_num(p.arg(1)) and is_num(p.arg(2)):
+                vt, ve = num_value(p.arg(1)), num_value(p.arg(2))
+                if {vt, ve} <= {0.0, 1.0} and str(vt) != "-0.0" and str(ve) != "-0.0":
+                    c = p.arg(0)
+                    qt, qe = simp_under(q, c, True), simp_under(q, c, False)
+                    zero = z3.FPVal(0.0, q.sort())
+                    return mk_ite(c, qt if vt == 1.0 else mk_mul(zero, qt), qe if ve == 1.0 else mk_mul(zero, qe))
         return z3.fpMul(RNE, a, b)
     va, vb = num_value(a), num_value(b)
     if va is not None and vb is not None:
@@ -363,11 +384,46 @@ def mk_or(*xs):
     return z3.Or(*out)
 
 
+CTX_SIMPLIFY = True
+
+
+def _facts(c, val):
+    """literal facts (term, bool) implied by `c == val`"""
+    out = [(c, val)]
+    if z3.is_not(c):
+        out += _facts(c.arg(0), not val)
+    elif z3.is_and(c) and val:
+        for x in c.children():
+            out += _facts(x, True)
+    elif z3.is_or(c) and not val:
+        for x in c.children():
+            out += _facts(x, False)
+    return out
+
+
+def simp_under(t, c, val):
+    """t simplified under the hypothesis c == val (equivalence preserving under that hypothesis)"""
+    if not CTX_SIMPLIFY or is_num(t) or t.num_args() == 0:
+        return t
+    subs = [(x, z3.BoolVal(v)) for x, v in _facts(c, val) if not (z3.is_true(x) or z3.is_false(x))]
+    t2 = z3.substitute(t, *subs)
+    if t2.eq(t):
+        return t
+    return _light_simplify(t2)
+
+
+def _light_simplify(t):
+    return z3.simplify(t, som=False, flat=False, blast_select_store=False, elim_and=False, local_ctx=False, mul_to_power=False, hoist_mul=False, sort_sums=False, arith_lhs=False, algebraic_number_evaluator=False)
+
+
 def mk_ite(c, a, b):
     if z3.is_true(c):
         return a
     if z3.is_false(c):
         return b
+    if a.eq(b):
+        return a
+    a, b = simp_under(a, c, True), simp_under(b, c, False)
     if a.eq(b):
         return a
     if z3.is_bool(a):
@@ -423,29 +479,58 @@ def mk_cmp(op, a, b):
 
 def same_value(a, b):
     """Bit-level 'same value' (NaN equals NaN) – used by assertions on F payloads; plain equality otherwise."""
+    if a.eq(b):
+        return z3.BoolVal(True)
     if z3.is_fp(a):
+        a2, b2 = _light_simplify(a), _light_simplify(b)
+        if a2.eq(b2):
+            return z3.BoolVal(True)
         return z3.Or(z3.fpEQ(a, b), z3.And(z3.fpIsNaN(a), z3.fpIsNaN(b)))
     return a == b
+
+
+def implies_same(h, a, b):
+    """h -> a and b are the same value; both sides are first simplified under h (so that values selected by h's
+    literals become syntactically equal)"""
+    if z3.is_true(h):
+        return same_value(a, b)
+    a2, b2 = simp_under(a, h, True), simp_under(b, h, True)
+    sv = same_value(a2, b2)
+    if z3.is_true(sv):
+        return sv
+    return z3.Implies(h, sv)
 
 
 # ------------------------------------------------------------------------------------------------
 # abstracted functions (Ackermannised): fresh constant per distinct application + ground axioms
 # ------------------------------------------------------------------------------------------------
+_DECLS = {}
+
+
+def _decl(fname, arg_sorts, sort):
+    key = (fname, tuple(str(a) for a in arg_sorts), str(sort))
+    d = _DECLS.get(key)
+    if d is None:
+        d = z3.Function(fname, *arg_sorts, sort)
+        _DECLS[key] = d
+    return d
+
+
 def apply_fn(fname, args, sort=None):
-    """Application of an abstracted function: returns a constant standing for fname(*args).
-    Structurally identical applications share the constant; congruence over semantically equal arguments is
-    added at solve time (see `congruence_axioms`)."""
+    """Application of an abstracted (uninterpreted) function. Terms keep the application structure `f(args)` so that
+    substitution / contextual simplification reaches the arguments; for the nlsat tactic the applications are replaced
+    by constants at solve time (Ackermannisation with explicit congruence, see `ackermannize`)."""
     c = CTX
-    key = (fname,) + tuple(a.get_id() for a in args)
-    hit = c.app_index.get(key)
-    if hit is not None:
-        return hit
+    args = tuple(args)
     sort = sort if sort is not None else args[0].sort()
-    k = z3.Const(f"{fname}#{len(c.apps.get(fname, []))}", sort)
-    c.apps.setdefault(fname, []).append((tuple(args), k))
-    c.app_index[key] = k
-    _emit_axioms(fname, args, k)
-    return k
+    app = _decl(fname, [a.sort() for a in args], sort)(*args)
+    if app.get_id() in c.app_index:
+        return app
+    c.app_index[app.get_id()] = (fname, args)
+    c.apps.setdefault(fname, []).append((args, app))
+    c.app_order.append((fname, args, app))
+    _emit_axioms(fname, args, app)
+    return app
 
 
 def _emit_axioms(fname, args, k):
@@ -490,28 +575,6 @@ def _emit_axioms(fname, args, k):
         c.axioms.append(z3.Implies(z3.And(e == 0, b != 0), k == 1))
     elif fname == "softmax_den":
         c.axioms.append(k > 0)
-
-
-def congruence_axioms():
-    """x == y -> f(x) == f(y) for all pairs of applications of the same abstracted function."""
-    c = CTX
-    out = []
-    if not c.congruence:
-        return out
-    for fname, apps in c.apps.items():
-        n = len(apps)
-        for i in range(n):
-            ai, ki = apps[i]
-            for j in range(i + 1, n):
-                aj, kj = apps[j]
-                if len(ai) != len(aj) or ki.sort() != kj.sort():
-                    continue
-                if z3.is_fp(ki):
-                    eqs = [z3.Or(x == y, z3.And(z3.fpIsNaN(x), z3.fpIsNaN(y))) if z3.is_fp(x) else x == y for x, y in zip(ai, aj)]
-                    out.append(z3.Implies(z3.And(*eqs), z3.Or(ki == kj, z3.And(z3.fpIsNaN(ki), z3.fpIsNaN(kj)))))
-                else:
-                    out.append(z3.Implies(z3.And(*[x == y for x, y in zip(ai, aj)]), ki == kj))
-    return out
 
 
 def monotone_axioms(fnames=("exp", "log", "sigmoid_arg")):
@@ -612,19 +675,93 @@ class Verdict:
 
 def background(include_pc=True):
     c = CTX
-    key = (c.congruence, sum(len(v) for v in c.apps.values()), len(c.fp_pins))
-    if getattr(c, "_cong_cache", (None, None))[0] == key:
-        cong = c._cong_cache[1]
-    else:
-        if c.mode == "R" and c.congruence == "pruned":
-            cong = congruence_axioms_pruned()
-        else:
-            cong = congruence_axioms()
-        c._cong_cache = (key, cong)
-    bg = list(c.assumptions) + list(c.axioms) + list(c.lemmas) + cong
+    bg = list(c.assumptions) + list(c.axioms) + list(c.lemmas)
     if include_pc:
         bg += list(c.pc)
     return bg
+
+
+def is_uf_app(t):
+    return t.num_args() > 0 and t.decl().kind() == z3.Z3_OP_UNINTERPRETED
+
+
+def ack(t):
+    """t with every uninterpreted application replaced (bottom-up) by a constant; structurally equal applications
+    (after replacement of their arguments) share the constant."""
+    c = CTX
+    memo = c.ack_memo  # id -> (key term kept alive, result): z3 reuses AST ids of collected terms
+    root = t
+    stack = [t]
+    while stack:
+        x = stack[-1]
+        i = x.get_id()
+        if i in memo:
+            stack.pop()
+            continue
+        if x.num_args() == 0:
+            memo[i] = (x, x)
+            stack.pop()
+            continue
+        ch = x.children()
+        pending = [k for k in ch if k.get_id() not in memo]
+        if pending:
+            stack.extend(pending)
+            continue
+        new = [memo[k.get_id()][1] for k in ch]
+        if is_uf_app(x):
+            fname = x.decl().name()
+            key = (fname,) + tuple(n.get_id() for n in new)
+            k = c.ack_consts.get(key)
+            if k is None:
+                k = z3.Const(f"{fname}#{len(c.ack_apps.get(fname, []))}", x.sort())
+                c.ack_consts[key] = k
+                c.ack_apps.setdefault(fname, []).append((tuple(new), k, x))
+            memo[i] = (x, k)
+        else:
+            if all(a.eq(b) for a, b in zip(ch, new)):
+                memo[i] = (x, x)
+            else:
+                memo[i] = (x, x.decl()(*new))
+        stack.pop()
+    return memo[root.get_id()][1]
+
+
+def ack_congruence():
+    """explicit congruence instances between the Ackermann constants (all pairs, or fingerprint-pruned)"""
+    c = CTX
+    if not c.congruence:
+        return []
+    fps = None
+    if c.congruence == "pruned":
+        try:
+            fps = [Fingerprinter(s_, c.fp_pins) for s_ in range(2)]
+        except Unsupported:
+            fps = None
+    out = []
+    kept = dropped = 0
+    for fname, apps in c.ack_apps.items():
+        n = len(apps)
+        sig = None
+        if fps is not None and n > 1:
+            try:
+                sig = [tuple(tuple(float(fp.ev(a)) for a in orig.children()) for fp in fps) for (_, _, orig) in apps]
+            except (Unsupported, RecursionError):
+                sig = None
+        for i in range(n):
+            ai, ki, _ = apps[i]
+            for j in range(i + 1, n):
+                aj, kj, _ = apps[j]
+                if len(ai) != len(aj) or ki.sort() != kj.sort():
+                    continue
+                if sig is not None:
+                    close = all(abs(x - y) <= 1e-6 * (1 + abs(x) + abs(y)) for p_, q_ in zip(sig[i], sig[j]) for x, y in zip(p_, q_))
+                    if not close:
+                        dropped += 1
+                        continue
+                kept += 1
+                out.append(z3.Implies(z3.And(*[x == y for x, y in zip(ai, aj)]), ki == kj))
+    c.cong_stats = (kept, dropped)
+    return out
 
 
 def check_sat(formulas, timeout_ms=30000, tactics=None):
@@ -634,15 +771,21 @@ def check_sat(formulas, timeout_ms=30000, tactics=None):
         tactics = ("default",) if c.mode == "F" else ("qfnra-nlsat", "default")
     t_all = time.time()
     last = None
+    acked = None
     for tac in tactics:
         t0 = time.time()
         try:
-            if tac == "default":
+            if tac == "default" and c.mode == "F":
                 s = z3.Solver()
+                s.set("timeout", int(timeout_ms))
+                s.add(*formulas)
             else:
-                s = z3.Tactic(tac).solver()
-            s.set("timeout", int(timeout_ms))
-            s.add(*formulas)
+                if acked is None:
+                    acked = [ack(f) for f in formulas]
+                    acked = acked + ack_congruence()
+                s = z3.Solver() if tac == "default" else z3.Tactic(tac).solver()
+                s.set("timeout", int(timeout_ms))
+                s.add(*acked)
             r = s.check()
         except z3.Z3Exception as e:  # tactic not applicable (e.g. ints / ite for nlsat)
             last = Verdict("unknown", None, time.time() - t0, tac, f"z3 exception: {e}")
@@ -663,7 +806,58 @@ def prove(goal, timeout_ms=30000, extra=(), tactics=None):
     unsat => proved; sat => counterexample model; unknown => inconclusive."""
     if z3.is_true(goal):
         return Verdict("unsat", None, 0.0, "trivial")
-    return check_sat(background() + list(extra) + [mk_not(goal)], timeout_ms, tactics)
+    bg = background() + list(extra)
+    if CTX.mode == "F" and SLICE_F:
+        # cone of influence: dropping hypotheses is sound for proving; a sat answer is re-checked with everything
+        sliced = cone_of_influence(goal, bg)
+        v = check_sat(sliced + [mk_not(goal)], timeout_ms, tactics)
+        if v.status == "unsat" or len(sliced) == len(bg):
+            return v
+    return check_sat(bg + [mk_not(goal)], timeout_ms, tactics)
+
+
+SLICE_F = True
+_CONSTS_MEMO = {}
+
+
+def consts_of(t):
+    """ids of the uninterpreted constants occurring in t"""
+    key = t.get_id()
+    hit = _CONSTS_MEMO.get(key)
+    if hit is not None and hit[0].eq(t):
+        return hit[1]
+    seen, out, stack = set(), set(), [t]
+    while stack:
+        x = stack.pop()
+        i = x.get_id()
+        if i in seen:
+            continue
+        seen.add(i)
+        if x.num_args() == 0:
+            if x.decl().kind() == z3.Z3_OP_UNINTERPRETED:
+                out.add(i)
+        else:
+            stack.extend(x.children())
+    if len(_CONSTS_MEMO) > 20000:
+        _CONSTS_MEMO.clear()
+    _CONSTS_MEMO[key] = (t, frozenset(out))
+    return _CONSTS_MEMO[key][1]
+
+
+def cone_of_influence(goal, formulas):
+    fc = [(f, consts_of(f)) for f in formulas]
+    rel = set(consts_of(goal))
+    chosen = [False] * len(fc)
+    changed = True
+    while changed:
+        changed = False
+        for k, (f, cs) in enumerate(fc):
+            if not chosen[k] and (cs & rel or not cs):
+                chosen[k] = True
+                if not cs <= rel:
+                    rel |= cs
+                    changed = True
+    return [f for k, (f, _) in enumerate(fc) if chosen[k]]
 
 
 def feasible(extra=(), timeout_ms=10000):
@@ -781,10 +975,6 @@ class Fingerprinter:
         self.seed = seed
         self.memo = {}
         self.pins = pins or {}
-        self.app_of = {}
-        for fname, apps in CTX.apps.items():
-            for args, k in apps:
-                self.app_of[k.get_id()] = (fname, args)
 
     def ev(self, t):
         i = t.get_id()
@@ -801,23 +991,22 @@ class Fingerprinter:
         if t.get_id() in self.pins:
             return self.pins[t.get_id()]
         k = t.decl().kind()
+        if k == z3.Z3_OP_UNINTERPRETED and t.num_args() > 0:
+            fname = t.decl().name()
+            vals = [float(self.ev(a)) for a in t.children()]
+            f = _TRUE_FUNCS.get(fname)
+            if f is not None and len(vals) == 1:
+                try:
+                    return f(vals[0])
+                except Exception:
+                    return _pseudo(fname, vals, self.seed)
+            if fname == "pow":
+                try:
+                    return abs(vals[0]) ** vals[1]
+                except Exception:
+                    return _pseudo(fname, vals, self.seed)
+            return _pseudo(fname, vals, self.seed)
         if k == z3.Z3_OP_UNINTERPRETED and t.num_args() == 0:
-            app = self.app_of.get(t.get_id())
-            if app is not None:
-                fname, args = app
-                vals = [float(self.ev(a)) for a in args]
-                f = _TRUE_FUNCS.get(fname)
-                if f is not None and len(vals) == 1:
-                    try:
-                        return f(vals[0])
-                    except Exception:
-                        return _pseudo(fname, vals, self.seed)
-                if fname == "pow":
-                    try:
-                        return abs(vals[0]) ** vals[1]
-                    except Exception:
-                        return _pseudo(fname, vals, self.seed)
-                return _pseudo(fname, vals, self.seed)
             nm = CTX.fp_alias.get(t.get_id()) or str(t)
             if z3.is_bool(t):
                 return _pseudo(nm, [], self.seed) > 1.25
@@ -873,43 +1062,6 @@ class Fingerprinter:
         except (OverflowError, ZeroDivisionError, ValueError):
             return _pseudo("err", [], self.seed)
         raise Unsupported(f"fingerprint of {t.decl()}")
-
-
-def congruence_axioms_pruned(n_points=2):
-    """congruence instances restricted to pairs of applications whose arguments agree numerically on random points
-    (interpreting abstracted functions by the true functions)"""
-    c = CTX
-    out = []
-    try:
-        fps = [Fingerprinter(s, getattr(c, "fp_pins", None)) for s in range(n_points)]
-    except Unsupported:
-        return congruence_axioms()
-    kept = dropped = 0
-    for fname, apps in c.apps.items():
-        n = len(apps)
-        if n < 2:
-            continue
-        try:
-            sig = [tuple(tuple(float(fp.ev(a)) for a in args) for fp in fps) for args, _ in apps]
-        except (Unsupported, RecursionError):
-            sig = None
-        for i in range(n):
-            ai, ki = apps[i]
-            for j in range(i + 1, n):
-                aj, kj = apps[j]
-                if len(ai) != len(aj) or ki.sort() != kj.sort():
-                    continue
-                if sig is not None:
-                    close = all(
-                        abs(x - y) <= 1e-6 * (1 + abs(x) + abs(y)) for p, q in zip(sig[i], sig[j]) for x, y in zip(p, q)
-                    )
-                    if not close:
-                        dropped += 1
-                        continue
-                kept += 1
-                out.append(z3.Implies(z3.And(*[x == y for x, y in zip(ai, aj)]), ki == kj))
-    c.notes.append(f"congruence instances kept {kept}, pruned {dropped}")
-    return out
 
 
 def exp_shift_lemmas(shift, eshift=None, n_points=2):
